@@ -1,7 +1,6 @@
 package checks
 
 import (
-	"github.com/trajectoryjp/spatial_id_go/v4/common/object"
 	"github.com/trajectoryjp/spatial_id_go/v4/shape"
 	"github.com/trajectoryjp/spatial_id_go/v4/transform"
 	"pgregory.net/rapid"
@@ -14,7 +13,8 @@ type CaseC10 struct {
 	Any []ref.Box // boxes at any zooms: object parse / print, voxel id extraction
 	Exp ref.Box   // box with |h-v| <= 5 (sweep: larger): expansion into single-zoom IDs
 	// Procs: check the case under every other scheduler width as well (large expansions)
-	Procs bool `json:",omitempty"`
+	Procs bool  `json:",omitempty"`
+	Reuse int64 `json:",omitempty"` // != 0: ID objects are re-used objects (Reset / setters)
 }
 
 func (c *CaseC10) WantsProcs() bool { return c.Procs }
@@ -63,6 +63,7 @@ func genC10(t *rapid.T) *CaseC10 {
 			}
 		}
 	}
+	c.Reuse = genReuse(t)
 	return c
 }
 
@@ -142,7 +143,7 @@ func checkC10(c *CaseC10, fl *Fails) {
 	// (b) object parse / print, (c) voxel id extraction
 	for _, b := range append(append([]ref.Box{}, c.Any...), c.Exp) {
 		s := b.Ext()
-		o, err := object.NewExtendedSpatialID(s)
+		o, err := mkExtObj(c.Reuse, s, b.H, b.X, b.Y, b.V, b.F)
 		if err != nil {
 			fl.Add("error", "NewExtendedSpatialID(%s): %v", s, err)
 			continue
@@ -164,7 +165,7 @@ func checkC10(c *CaseC10, fl *Fails) {
 	}
 	// (d) expansion
 	b := c.Exp
-	o, err := object.NewExtendedSpatialID(b.Ext())
+	o, err := mkExtObj(c.Reuse, b.Ext(), b.H, b.X, b.Y, b.V, b.F)
 	if err != nil {
 		return
 	}
